@@ -6,7 +6,10 @@ import (
 	"context"
 	"fmt"
 	"os"
+	"os/exec"
+	"path/filepath"
 	"testing"
+	"time"
 
 	"github.com/folbricht/desync"
 	"pgregory.net/rapid"
@@ -26,6 +29,7 @@ type Case struct {
 	A      int         `json:"a"`
 	B      int         `json:"b"`
 	Bit    int         `json:"bit"`
+	CLI    bool        `json:"cli,omitempty"` // also run `desync verify-index -n N` (needs $VERIF_DESYNC_BIN)
 }
 
 func batchOf(chunks, n int) int { return chunks / (n * 10) }
@@ -72,6 +76,13 @@ func genCase(t *rapid.T) Case {
 	c.A = rapid.IntRange(0, 1<<20).Draw(t, "a")
 	c.B = rapid.IntRange(0, 1<<20).Draw(t, "b")
 	c.Bit = rapid.IntRange(0, 7).Draw(t, "bit")
+	if os.Getenv("VERIF_DESYNC_BIN") != "" && rapid.IntRange(0, hx.Pick(60, 15)).Draw(t, "cli") == 0 {
+		c.CLI = true
+		if rapid.IntRange(0, 5).Draw(t, "cliempty") == 0 { // the empty blob and its index without chunks
+			c.Pieces, c.Tiling, c.Mod = nil, nil, "none"
+			c.Sizes = gen.Sizes{Min: 64, Avg: 256, Max: 1024}
+		}
+	}
 	return c
 }
 
@@ -210,6 +221,35 @@ func run(c Case) (o hx.Outcome) {
 	path := dx.WriteFile(dir, "blob", file)
 	err := desync.VerifyIndex(context.Background(), path, idx, n, desync.NullProgressBar{})
 
+	if c.CLI && os.Getenv("VERIF_DESYNC_BIN") != "" {
+		ipath := filepath.Join(dir, "blob.caibx")
+		if f, ferr := os.Create(ipath); ferr == nil {
+			idx.WriteTo(f)
+			f.Close()
+			ctx, cancel := context.WithTimeout(context.Background(), 120*time.Second)
+			cmd := exec.CommandContext(ctx, os.Getenv("VERIF_DESYNC_BIN"), "verify-index", "-n", fmt.Sprint(n), ipath, path)
+			cmd.Env = []string{"HOME=" + dir, "TMPDIR=" + dir, "PATH=/usr/bin:/bin"}
+			out, cerr := cmd.CombinedOutput()
+			timedOut := ctx.Err() != nil
+			cancel()
+			if !timedOut {
+				o.Class("cli-verify-index")
+				if nch == 0 {
+					o.Class("cli-empty-index")
+				}
+				msg := string(out)
+				if len(msg) > 300 {
+					msg = msg[len(msg)-300:]
+				}
+				if same && cerr != nil {
+					o.Fail("C17:cli:reject-matching", "desync verify-index -n %d rejected a file that equals the indexed blob (%d bytes, %d chunks): %v: %s", n, len(blob), nch, cerr, msg)
+				}
+				if !same && cerr == nil {
+					o.Fail("C17:cli:accept-mismatch:"+mod, "desync verify-index -n %d accepted a file that differs from the indexed blob (mod=%s)", n, mod)
+				}
+			}
+		}
+	}
 	batch := 0
 	if nch > 0 {
 		batch = batchOf(nch, n)
